@@ -29,6 +29,7 @@ theorem Sim.toR {num : Bytes → Nat} {enc : Encoder} {t₂ : Table} {G : List T
     (s : Sim num enc t₂ G Gt st l) : SimR num enc t₂ G Gt st l := ⟨s.r, s.tbl, s.tasks, s.gl⟩
 
 
+
 section
 variable {num : Bytes → Nat} {enc : Encoder} {t₂ : Table} {G : List Task} {Gt : Table}
   {st st' : St} {l : Layout.State}
@@ -268,21 +269,30 @@ theorem align_sim (sim : Sim num enc t₂ G Gt st l) (env : Env) (henv : env.pat
                   · have hv0 : v.toNat ≠ 0 := by omega
                     simp [cursor, ha, Layout.Ref.next, Layout.Ref.size, hoff, hv0]
                 · simp only [hoff, if_false] at h
-                  cases hs : segStep st.seg (.append (List.replicate (v.toNat - (seg.base + seg.buf.length) % v.toNat) 0xBE)) with
-                  | stop r => rw [hs] at h; cases h
-                  | ok p =>
-                    obtain ⟨s', o⟩ := p
-                    rw [hs] at h
-                    have hnd' : ∀ e, o ≠ .diag e := by intro e he; subst he; simp at h
-                    have hst : st' = { st with seg := s' } := by
-                      cases o <;> simp at h <;> first | exact h.symm | exact absurd rfl (hnd' _)
-                    subst hst
-                    obtain ⟨w1, w2, w3, w4⟩ := write_sim sim.good.inv sim.r ha _ _ (.inl rfl) hs hnd'
-                    refine ⟨a, v, _, rfl, constVal_of hsub hnd hev, ?_, simR_seg sim w4 rfl rfl, ?_⟩
-                    · simp only [Layout.step, hla, hn0, if_false, toL, hoff]
-                      exact w3
-                    · have hv0 : v.toNat ≠ 0 := by omega
-                      simp [cursor, ha, w1, Layout.Ref.next, Layout.Ref.size, hoff, hv0, Nat.add_assoc]
+                  cases hrem : seg.remaining with
+                  | none => rw [hrem] at h; cases h
+                  | some rem =>
+                    rw [hrem] at h
+                    simp only at h
+                    by_cases hfit : v.toNat - (seg.base + seg.buf.length) % v.toNat ≤ rem
+                    · rw [if_pos hfit] at h
+                      cases hs : segStep st.seg (.append (List.replicate (v.toNat - (seg.base + seg.buf.length) % v.toNat) 0xBE)) with
+                      | stop r => rw [hs] at h; cases h
+                      | ok p =>
+                        obtain ⟨s', o⟩ := p
+                        rw [hs] at h
+                        have hnd' : ∀ e, o ≠ .diag e := by intro e he; subst he; simp at h
+                        have hst : st' = { st with seg := s' } := by
+                          cases o <;> simp at h <;> first | exact h.symm | exact absurd rfl (hnd' _)
+                        subst hst
+                        obtain ⟨w1, w2, w3, w4⟩ := write_sim sim.good.inv sim.r ha _ _ (.inl rfl) hs hnd'
+                        refine ⟨a, v, _, rfl, constVal_of hsub hnd hev, ?_, simR_seg sim w4 rfl rfl, ?_⟩
+                        · rw [Layout.step_align]
+                          simp only [hla, hn0, if_false, toL, hoff]
+                          exact w3
+                        · have hv0 : v.toNat ≠ 0 := by omega
+                          simp [cursor, ha, w1, Layout.Ref.next, Layout.Ref.size, hoff, hv0, Nat.add_assoc]
+                    · rw [if_neg hfit] at h; simp at h
               · rw [if_neg hv] at h; simp at h
             | _ => simp at h
 
